@@ -127,22 +127,27 @@ DFS_RING = [
     ([2, 0, 0], [[2, 10], [2, 11], [2, 12]], [[5], [5]]),
     ([5, 0, 2], [[1, 10, 11, 12], [1, 13, 14, 15]], [[8], [4, 4]]),
 ]
+# void ring: (cfg, producer, consumer, schedule prefix).  The prefix runs the producer's first back()+push_back()
+# alone (begin, A, E, F); all interleavings of the rest are enumerated.
 DFS_RINGV = [
-    ([16, 1], [[1, 1, 7], [1, 8, 9]], [[6], [6]]),
-    ([24, 0], [[1, 8, 1], [1, 5, 2]], [[6], [6]]),                      # second record wraps (tail of 8)
-    ([40, 0], [[1, 16, 3], [1, 12, 4]], [[6], [6]]),                    # wrap, consumer may lag
-    ([64, 1], [[1, 48, 5], [1, 9, 6]], [[6], [6]]),                     # tail of exactly 8 bytes
-    ([64, 0], [[1, 16, 7], [2, 32, 8]], [[4], [6]]),                    # exact fit at the end
-    ([24, 0], [[1, 3, 9], [1, 15, 10]], [[6], [4], [6]]),
-    ([40, 0], [[1, 24, 11], [1, 24, 12]], [[6], [6]]),                  # second space test fails while consumer lags
-    ([16, 1], [[1, 7, 13], [1, 7, 14]], [[6], [6]]),                    # real size == capacity
+    ([16, 1], [[1, 1, 7], [1, 8, 9]], [[6], [6]], [0, 0, 0, 0]),
+    ([24, 0], [[1, 8, 1], [1, 5, 2]], [[6], [6]], [0, 0, 0, 0]),           # second record wraps (tail of 8)
+    ([40, 0], [[1, 16, 3], [1, 12, 4]], [[6], [6]], [0, 0, 0, 0]),         # wrap, consumer may lag
+    ([64, 1], [[1, 48, 5], [1, 9, 6]], [[6], [6]], [0, 0, 0, 0]),          # tail of exactly 8 bytes
+    ([64, 0], [[1, 16, 7], [2, 32, 8]], [[4], [6]], [0, 0, 0, 0]),         # exact fit at the end
+    ([24, 0], [[1, 3, 9], [1, 15, 10]], [[6], [4], [6]], [0, 0, 0, 0]),
+    ([40, 0], [[1, 24, 11], [1, 24, 12]], [[6], [6]], [0, 0, 0, 0]),       # second space test fails while consumer lags
+    ([16, 1], [[1, 7, 13], [1, 7, 14]], [[6], [6]], [0, 0, 0, 0]),         # real size == capacity
+    ([24, 0], [[1, 8, 15]], [[6], [6]], []),                               # one push against two consumes, from the start
+    ([64, 1], [[1, 16, 1], [1, 40, 2]], [[6], [6]], [0, 0, 0, 0]),         # the known finding: back(40) wedged
 ]
 
 
 def mk_dfs_cases(templates, tier_thorough):
     out = []
-    for i, (cfg, P, C) in enumerate(templates):
-        out.append({"id": "d%d" % i, "cfg": cfg, "threads": [P, C], "sched": []})
+    for i, t in enumerate(templates):
+        cfg, P, C = t[0], t[1], t[2]
+        out.append({"id": "d%d" % i, "cfg": cfg, "threads": [P, C], "sched": [], "prefix": list(t[3]) if len(t) > 3 else []})
     return out
 
 
@@ -163,7 +168,7 @@ def enumerate_interleavings(ctx, model, base, tag, limit):
     (list of complete schedules, truncated?).  A schedule prefix is completed by 'thread 0 while it is enabled'."""
     PAD = [0] * 80
     done = []
-    frontier = [[]]
+    frontier = [list(base.get("prefix", []))]
     truncated = False
     level = 0
     while frontier:
@@ -287,8 +292,9 @@ def analyse(ctx, var, cases, ml, il, st):
             st["branches"][s] = st["branches"].get(s, 0) + 1
             name, acc, res = s.split(":")
             toks = acc.split(",")
+            loaded = set(t for t in toks if t.startswith("ld"))
             # a reload of the other side's counter, a failing operation or a tail skip: a path that depends on the other thread
-            if (name in ("push", "vpush") and "ldo2" in toks and toks[0] != "ldo2") or res.endswith("fail") or res.endswith("null") or (name == "vfront" and "sto" in acc):
+            if (name in ("push", "pop", "front", "vpush", "vfront", "vpop") and len(loaded) >= 2) or res.endswith("fail") or res.endswith("null") or (name == "vfront" and "sto" in acc):
                 nontrivial = True
         if nontrivial:
             st["nontrivial"].add(hash(tuple(m["lines"])))
@@ -358,7 +364,7 @@ def run(ctx):
         templates = DFS_RING if var == "ring" else DFS_RINGV
         if not ctx.thorough():
             templates = templates[:4]
-        limit = 12000 if ctx.thorough() else 1000
+        limit = 8000 if ctx.thorough() else 1000
         dcases = []
         for base in mk_dfs_cases(templates, ctx.thorough()):
             scheds, trunc = enumerate_interleavings(ctx, VARIANTS[var]["model"], base, var, limit)
